@@ -332,6 +332,7 @@ type StepOpts struct {
 	Reopen          bool
 	Pool            bool
 	Mine            bool
+	Truncate        bool
 	AllowPlayHazard bool // only the check that owns the finding sets this
 	PredictSubmit   bool // compare every pool submission with the model's prediction (C03)
 }
@@ -387,6 +388,10 @@ func (s *SUT) Step(rng *rand.Rand, o StepOpts) Op {
 			}
 			return s.Walk(target, false)
 		case r < 88 && o.Reopen:
+			if o.Truncate && rng.Intn(2) == 0 && s.LedgerTip() > 0 {
+				mc := s.T.Path(s.LedgerTip())
+				return s.Truncate(mc[rng.Intn(len(mc))])
+			}
 			return s.Reopen()
 		case r < 100 && o.Pool && len(submittable) > 0:
 			i := submittable[rng.Intn(len(submittable))]
